@@ -1117,6 +1117,12 @@ func (fe *FnExec) step(st *State, in ssa.Instruction) {
 		switch vv := v.(type) {
 		case Scalar:
 			if vv.T.Sort == SInt {
+				if _, isPtr := x.X.Type().Underlying().(*types.Pointer); isPtr {
+					if st.boxed == nil {
+						st.boxed = map[string]types.Type{}
+					}
+					st.boxed[vv.T.S] = x.X.Type()
+				}
 				st.vals[x] = IfaceV{code, vv.T}
 			} else {
 				// boxed non-integer scalar: payload id by an injective box function
